@@ -223,9 +223,15 @@ class Facts:
     def __init__(self, directory):
         self.dir = directory
         self.crates = {}
-        for p in sorted(glob.glob(os.path.join(directory, '*.json'))):
-            d = json.load(open(p))
-            unit = os.path.basename(p).rsplit('.', 2)[0]
+        for p in sorted(glob.glob(os.path.join(directory, '*.json')) + glob.glob(os.path.join(directory, '*.json.gz'))):
+            if p.endswith('.gz'):
+                import gzip
+                with gzip.open(p, 'rt') as fh:
+                    d = json.load(fh)
+                unit = os.path.basename(p)[:-3].rsplit('.', 2)[0]
+            else:
+                d = json.load(open(p))
+                unit = os.path.basename(p).rsplit('.', 2)[0]
             if unit in self.crates:
                 # a crate analysed twice (lib + test target): keep the larger
                 if len(d['fns']) < len(self.crates[unit]['fns']):
